@@ -8,6 +8,7 @@ import (
 	"fmt"
 	"hash"
 	"io"
+	"math"
 
 	"github.com/filecoin-project/go-f3/certs"
 	"github.com/filecoin-project/go-f3/gpbft"
@@ -250,13 +251,19 @@ func readSnapshotBlockBytes(reader SnapshotReader) ([]byte, error) {
 	if err != nil {
 		return nil, err
 	}
-	buf := make([]byte, n1)
-	n2, err := io.ReadFull(reader, buf)
+	if n1 > math.MaxInt64 {
+		return nil, fmt.Errorf("block length %d is too large", n1)
+	}
+	var buf bytes.Buffer
+	n2, err := io.CopyN(&buf, reader, int64(n1))
+	if err == io.EOF {
+		err = io.ErrUnexpectedEOF
+	}
 	if err != nil {
 		return nil, err
 	}
-	if n2 != int(n1) {
+	if uint64(n2) != n1 {
 		return nil, fmt.Errorf("incomplete block, %d bytes expected, %d bytes got", n1, n2)
 	}
-	return buf, nil
+	return buf.Bytes(), nil
 }
